@@ -5,9 +5,8 @@ import VibeProof.Lemmas.Csv
 C31 — CLI import/export transfers data faithfully and safely.
 
  T1  the CSV writer is right: a reference RFC 4180 reader gets back every table of cells;
- T2  the reader as coded (`import_csv`: split at line breaks, split at commas, trim) produces the
-     INSERTs of the written rows exactly when no cell contains `,` `"` a line break or outer
-     blanks — one counterexample per excluded character;
+ T2  the reader (`parse_csv_records` + `import_csv`, as repaired) turns every written file into
+     exactly the INSERTs of its rows, for all cell contents;
  T3  values never escape their literal in the generated INSERT text (uses C19-T1); column names
      are copied verbatim, so they are safe only if validated — which `validate_json_columns` now
      does for every object;
@@ -32,130 +31,23 @@ example : parseCsv (writeCsv [["a,b".toList, "q\"r".toList], ["x\ny".toList, []]
 
 /-! ## T2 -/
 
-/-- a cell the naive reader handles: none of `,` `"` LF CR, and no blank at either end -/
-def naiveSafe (v : Str) : Bool :=
-  v.all (fun c => c ≠ ',' && c ≠ '"' && c ≠ '\n' && c ≠ '\r') && trim v = v
-
-/-- the full statement: importing what the writer wrote yields the INSERTs of the rows -/
-def C31_import_full : Prop :=
-  ∀ (table : Str) (header : List Str) (rows : List (List Str)),
-    header ≠ [] → (∀ r ∈ rows, r.length = header.length) →
-    importCsv table (writeCsv (header :: rows)) = .ok (insertsOf table header rows)
-
-theorem splitOnAux_noSep (sep : Char) (v : Str) (h : v.all (· ≠ sep) = true) :
-    ∀ (cur rest : Str), splitOnAux sep cur (v ++ sep :: rest) = (cur.reverse ++ v) :: splitOnAux sep [] rest := by
-  induction v with
-  | nil => intro cur rest; simp [splitOnAux]
-  | cons c cs ih =>
-    intro cur rest
-    simp only [List.all_cons, Bool.and_eq_true, decide_eq_true_eq] at h
-    simp only [List.cons_append, splitOnAux, h.1, if_false]
-    rw [ih (by simpa using h.2)]
-    simp
-
-theorem splitOnAux_last (sep : Char) (v : Str) (h : v.all (· ≠ sep) = true) :
-    ∀ (cur : Str), splitOnAux sep cur v = [cur.reverse ++ v] := by
-  induction v with
-  | nil => intro cur; simp [splitOnAux]
-  | cons c cs ih =>
-    intro cur
-    simp only [List.all_cons, Bool.and_eq_true, decide_eq_true_eq] at h
-    simp only [splitOnAux, h.1, if_false]
-    rw [ih (by simpa using h.2)]
-    simp
-
-theorem naiveSafe_parts (v : Str) (h : naiveSafe v = true) :
-    v.all (· ≠ ',') = true ∧ v.all (· ≠ '\n') = true ∧ needsQuote v = false ∧ trim v = v ∧
-      v.all (· ≠ '\r') = true := by
-  simp only [naiveSafe, Bool.and_eq_true, decide_eq_true_eq] at h
-  obtain ⟨hall, ht⟩ := h
-  have hmem : ∀ c ∈ v, c ≠ ',' ∧ c ≠ '"' ∧ c ≠ '\n' ∧ c ≠ '\r' := by
-    intro c hc
-    have := (List.all_eq_true.mp hall) c hc
-    simp only [Bool.and_eq_true, decide_eq_true_eq] at this
-    exact ⟨this.1.1.1, this.1.1.2, this.1.2, this.2⟩
-  refine ⟨?_, ?_, ?_, ht, ?_⟩
-  · simp only [List.all_eq_true, decide_eq_true_eq]; exact fun c hc => (hmem c hc).1
-  · simp only [List.all_eq_true, decide_eq_true_eq]; exact fun c hc => (hmem c hc).2.2.1
-  · simp only [needsQuote, Bool.or_eq_false_iff, List.any_eq_false, decide_eq_true_eq]
-    exact ⟨⟨fun c hc => (hmem c hc).1, fun c hc => (hmem c hc).2.1⟩, fun c hc => (hmem c hc).2.2.1⟩
-  · simp only [List.all_eq_true, decide_eq_true_eq]; exact fun c hc => (hmem c hc).2.2.2
-
-/-- a written row of naive-safe cells splits back into its cells -/
-theorem split_joinCells (cells : List Str) (hne : cells ≠ []) (hs : ∀ c ∈ cells, naiveSafe c = true) :
-    ∀ (cur : Str), splitOnAux ',' cur (joinCells cells) =
-      match cells with
-      | [] => []
-      | c :: cs => (cur.reverse ++ c) :: cs := by
-  induction cells with
-  | nil => exact absurd rfl hne
-  | cons c cs ih =>
-    intro cur
-    obtain ⟨h1, _, h3, _, _⟩ := naiveSafe_parts c (hs c (by simp))
-    cases cs with
-    | nil =>
-      simp only [joinCells, escape, h3, Bool.false_eq_true, if_false]
-      exact splitOnAux_last ',' c h1 cur
-    | cons c2 cs2 =>
-      have := ih (by simp) (fun x hx => hs x (by simp [hx])) []
-      simp only [joinCells, escape, h3, Bool.false_eq_true, if_false] at this ⊢
-      rw [splitOnAux_noSep ',' c h1, this]
-      simp
-
-theorem joinCells_noNl (cells : List Str) (hs : ∀ c ∈ cells, naiveSafe c = true) :
-    (joinCells cells).all (· ≠ '\n') = true ∧ (joinCells cells).all (· ≠ '\r') = true := by
-  induction cells with
-  | nil => simp [joinCells]
-  | cons c cs ih =>
-    obtain ⟨_, h2, h3, _, h5⟩ := naiveSafe_parts c (hs c (by simp))
-    cases cs with
-    | nil => simp only [joinCells, escape, h3, Bool.false_eq_true, if_false]; exact ⟨h2, h5⟩
-    | cons c2 cs2 =>
-      obtain ⟨i1, i2⟩ := ih (fun x hx => hs x (by simp [hx]))
-      simp only [joinCells, escape, h3, Bool.false_eq_true, if_false, List.all_append, List.all_cons,
-        Bool.and_eq_true] at i1 i2 ⊢
-      exact ⟨⟨h2, by decide, i1⟩, ⟨h5, by decide, i2⟩⟩
-
-/-- `lines` on written rows of naive-safe cells gives one line per row -/
-theorem lines_written (rows : List (List Str)) (hs : ∀ r ∈ rows, ∀ c ∈ r, naiveSafe c = true)
-    (hne : ∀ r ∈ rows, r ≠ []) :
-    lines (writeCsv rows) = rows.map joinCells := by
-  have aux : ∀ (l : Str), l.all (· ≠ '\n') = true → l.all (· ≠ '\r') = true → ∀ (cur rest : Str),
-      cur.all (· ≠ '\r') = true →
-      linesAux cur (l ++ '\n' :: rest) = (cur.reverse ++ l) :: linesAux [] rest := by
-    intro l
-    induction l with
-    | nil =>
-      intro _ _ cur rest hc
-      have : stripCr cur = cur := by
-        cases cur with
-        | nil => rfl
-        | cons x xs =>
-          simp only [List.all_cons, Bool.and_eq_true, decide_eq_true_eq] at hc
-          simp [stripCr, hc.1]
-      simp [linesAux, this]
-    | cons c cs ih =>
-      intro h1 h2 cur rest hc
-      simp only [List.all_cons, Bool.and_eq_true, decide_eq_true_eq] at h1 h2
-      simp only [List.cons_append, linesAux, h1.1, if_false]
-      rw [ih (by simpa using h1.2) (by simpa using h2.2) (c :: cur) rest
-        (by simp only [List.all_cons, Bool.and_eq_true, decide_eq_true_eq]; exact ⟨h2.1, hc⟩)]
-      simp
+theorem importRows_ok (table : Str) (header : List Str) (rows : List (List Str))
+    (hlen : ∀ r ∈ rows, r.length = header.length) : ∀ n,
+    importRows table header n rows = .ok (insertsOf table header rows) := by
   induction rows with
-  | nil => simp [writeCsv, lines, linesAux]
+  | nil => intro n; rfl
   | cons r rs ih =>
-    obtain ⟨n1, n2⟩ := joinCells_noNl r (hs r (by simp))
-    have := ih (fun r' h => hs r' (by simp [h])) (fun r' h => hne r' (by simp [h]))
-    simp only [lines, writeCsv, List.map_cons, List.flatten_cons, writeRow, List.append_assoc,
-      List.singleton_append] at this ⊢
-    rw [aux (joinCells r) n1 n2 [] _ rfl, this]
-    simp
+    intro n
+    have hr := hlen r (by simp)
+    simp only [importRows, hr, ne_eq, not_true_eq_false, if_false]
+    rw [ih (fun r' h => hlen r' (by simp [h])) (n + 1)]
+    have hq : List.map quoteCell r = List.map renderStr r := List.map_congr_left (fun _ _ => rfl)
+    simp [insertsOf, hq]
 
-/-- **T2 (partial).** If every cell (header included) is free of `,` `"` line breaks and outer
-blanks, the reader as coded turns the written file into exactly the INSERTs of the rows. -/
-theorem C31_import_roundtrip_partial (table : Str) (header : List Str) (rows : List (List Str))
-    (hh : header ≠ []) (hlen : ∀ r ∈ rows, r.length = header.length)
-    (hsafe : ∀ r ∈ header :: rows, ∀ c ∈ r, naiveSafe c = true) :
+/-- **T2 (full).** Importing what the writer wrote yields exactly the INSERTs of the rows,
+whatever the cells contain (commas, quotes, line breaks, carriage returns, outer blanks). -/
+theorem C31_import_roundtrip (table : Str) (header : List Str) (rows : List (List Str))
+    (hh : header ≠ []) (hlen : ∀ r ∈ rows, r.length = header.length) :
     importCsv table (writeCsv (header :: rows)) = .ok (insertsOf table header rows) := by
   have hne : ∀ r ∈ header :: rows, r ≠ [] := by
     intro r hr
@@ -168,95 +60,50 @@ theorem C31_import_roundtrip_partial (table : Str) (header : List Str) (rows : L
       cases header with
       | nil => exact hh rfl
       | cons _ _ => simp at this
-  have hsplit : ∀ r ∈ header :: rows, splitOn ',' (joinCells r) = r := by
-    intro r hr
-    have := split_joinCells r (hne r hr) (hsafe r hr) []
-    cases r with
-    | nil => exact absurd rfl (hne _ hr)
-    | cons c cs => simpa [splitOn] using this
-  have hrows : ∀ (rs : List (List Str)) (n : Nat), (∀ r ∈ rs, r ∈ header :: rows) →
-      (∀ r ∈ rs, r.length = header.length) →
-      importRows table header n (rs.map joinCells) = .ok (insertsOf table header rs) := by
-    intro rs
-    induction rs with
-    | nil => intro n _ _; simp [importRows, insertsOf]
-    | cons r rs ih =>
-      intro n hmem hl
-      have hr := hmem r (by simp)
-      have hq : r.map quoteCell = r.map renderStr := by
-        apply List.map_congr_left
-        intro c hc
-        have := (naiveSafe_parts c (hsafe r hr c hc)).2.2.2.1
-        simp [quoteCell, this]
-      simp only [List.map_cons, importRows, hsplit r hr, hl r (by simp), ne_eq, not_true_eq_false,
-        if_false]
-      rw [ih (n + 1) (fun r' h => hmem r' (by simp [h])) (fun r' h => hl r' (by simp [h]))]
-      simp [insertsOf, hq]
-  simp only [importCsv, lines_written (header :: rows) hsafe hne, List.map_cons]
-  rw [hsplit header (by simp)]
-  exact hrows rows 2 (fun r h => by simp [h]) hlen
+  simp only [importCsv, C31_writer_rfc4180 (header :: rows) hne]
+  exact importRows_ok table header rows hlen 2
 
-example : importCsv ['t'] (writeCsv ([['a'], ['b']] :: [[['1'], "it's".toList]]))
-    = .ok (insertsOf ['t'] [['a'], ['b']] [[['1'], "it's".toList]]) :=
-  C31_import_roundtrip_partial _ _ _ (by simp) (by decide +kernel) (by decide +kernel)
+/-- non-vacuity, with the cells the naive reader used to get wrong: comma, quote, line break,
+carriage return before the record end, outer blanks -/
+example : importCsv ['t'] (writeCsv ([['a'], ['b']] :: [["x,y".toList, "q\"r".toList],
+      ["l\nm".toList, " p\r".toList]]))
+    = .ok (insertsOf ['t'] [['a'], ['b']] [["x,y".toList, "q\"r".toList], ["l\nm".toList, " p\r".toList]]) :=
+  C31_import_roundtrip _ _ _ (by simp) (by decide +kernel)
 
-/-- a comma inside a cell: the writer quotes the cell, the reader splits it -/
-theorem C31_import_comma_counterexample :
-    importCsv ['t'] (writeCsv [[['a']], [['x', ',', 'y']]]) = .error (.columnCount 2) := by decide
-
-/-- a quote inside a cell: the quoting characters become part of the value -/
-theorem C31_import_quote_counterexample :
-    importCsv ['t'] (writeCsv [[['a']], [['q', '"', 'r']]]) =
-      .ok ["INSERT INTO t (a) VALUES ('\"q\"\"r\"');".toList] := by decide
-
-/-- a line break inside a cell: the record is cut in two -/
-theorem C31_import_newline_counterexample :
-    importCsv ['t'] (writeCsv [[['a']], [['x', '\n', 'y']]]) =
-      .ok ["INSERT INTO t (a) VALUES ('\"x');".toList, "INSERT INTO t (a) VALUES ('y\"');".toList] := by
-  decide
-
-/-- outer blanks are trimmed away -/
-theorem C31_import_blank_counterexample :
-    importCsv ['t'] (writeCsv [[['a']], [[' ', 'p', ' ']]]) =
-      .ok ["INSERT INTO t (a) VALUES ('p');".toList] := by decide
-
-theorem C31_import_counterexample : ¬ C31_import_full := by
-  intro h
-  have := h ['t'] [['a']] [[['x', ',', 'y']]] (by simp) (by intro r hr; simp at hr; subst hr; rfl)
-  rw [C31_import_comma_counterexample] at this
-  cases this
+/-- a file with CRLF record ends reads like one with LF record ends -/
+theorem C31_crlf_records :
+    parseCsv "a,b\r\n1,\"x\"\r\n".toList = .ok [[['a'], ['b']], [['1'], ['x']]] := by decide +kernel
 
 /-! ## T3 -/
 
-/-- **T3.** In a generated INSERT every CSV cell is one string literal whose content is the
-(trimmed) cell, whatever the cell contains: the lexer's string rule consumes exactly the quoted
-cell and resumes at the text the generator put after it (`, ` or `);`). -/
+/-- **T3.** In a generated INSERT every CSV cell is one string literal whose content is the cell,
+whatever the cell contains: the lexer's string rule consumes exactly the quoted cell and resumes
+at the text the generator put after it (`, ` or `);`). -/
 theorem C31_value_confined (v r : Str) (hr : ∀ c r', r = c :: r' → c ≠ '\'') :
-    lexString (quoteCell v ++ r) = .ok (trim v, r) :=
-  lexString_renderStr (trim v) r hr
+    lexString (quoteCell v ++ r) = .ok (v, r) :=
+  lexString_renderStr v r hr
 
-/-- the same for a JSON value other than the text `NULL` -/
-theorem C31_json_value_confined (v r : Str) (hv : v ≠ "NULL".toList)
-    (hr : ∀ c r', r = c :: r' → c ≠ '\'') :
-    lexString (jsonCell v ++ r) = .ok (v, r) := by
-  simp only [jsonCell, hv, if_false]
-  exact lexString_renderStr v r hr
+/-- the same for every JSON value that is not null -/
+theorem C31_json_value_confined (v r : Str) (hr : ∀ c r', r = c :: r' → c ≠ '\'') :
+    lexString (jsonCell (some v) ++ r) = .ok (v, r) :=
+  lexString_renderStr v r hr
 
 example : lexString (quoteCell "'); DROP TABLE t; --".toList ++ ");".toList)
     = .ok ("'); DROP TABLE t; --".toList, ");".toList) :=
   C31_value_confined _ _ (by intro c r' h; injection h with h1 _; subst h1; decide)
 
-/-- the JSON *string* "NULL" is imported as SQL NULL, not as the four letters -/
-theorem C31_json_null_text_counterexample :
-    importJsonObj ['t'] [(['a'], "NULL".toList)] = "INSERT INTO t (a) VALUES (NULL);".toList := by
-  decide
+/-- the JSON string "NULL" is imported as the four letters; only JSON null is SQL NULL -/
+theorem C31_json_null_text :
+    importJsonObj ['t'] [(['a'], some "NULL".toList), (['b'], none)] =
+      "INSERT INTO t (a, b) VALUES ('NULL', NULL);".toList := by
+  decide +kernel
 
 /-- column names are copied into the statement verbatim: a key that passes no validation puts
-its own VALUES list first and comments out the real one (the reason every object's keys are now
+its own VALUES list first and comments out the real one (the reason every object's keys are
 validated against the table's columns) -/
 theorem C31_unvalidated_key_injects :
-    scan (importJsonObj ['s'] [("a) VALUES ('INJECTED'); --".toList, ['2'])]) =
-      scan "INSERT INTO s (a) VALUES ('INJECTED');".toList := by decide
+    scan (importJsonObj ['s'] [("a) VALUES ('INJECTED'); --".toList, some ['2'])]) =
+      scan "INSERT INTO s (a) VALUES ('INJECTED');".toList := by decide +kernel
 
 /-- a validated name (one of the table's columns, hence free of quotes, parentheses and
 semicolons) contains none of the characters that delimit the column list -/
@@ -284,6 +131,6 @@ theorem C31_export_import_counterexample : ¬ C31_full := by
   have := h Unit (fun _ => "Integer(1)".toList) (fun _ => ['1']) ['t'] [['a']] [[()]] (by simp)
     (by intro r hr; simp at hr; subst hr; rfl)
   revert this
-  decide
+  decide +kernel
 
 end VibeProof.C31
